@@ -346,3 +346,70 @@ def run_exhaustive(chk: Check, rows, configs, rng, qfrac=1.0, only=lambda row, w
         row = tasks[len(tasks) // 2][0]
         chk.sample({"path": "G", "base_numbers": row["b"], "base_vecs": [M.cond_from_index(i, 4) for i in row["b"]], "expected_p_strict": row["p0"][:27] + "...", "fin": row["fin"], "inf": row["inf"]})
     return nrows
+
+
+# ----------------------------------------------------------------------------- distinguishing inputs (DESIGN 5.3-2)
+def distinguishing_cases(rng, variant="lexAllPairs"):
+    """Cases built from the TLC-found inputs on which a named wrong variant differs from the definition."""
+    import os
+
+    from common import VERIF
+
+    with open(os.path.join(VERIF, "spec", "distinguishing.json")) as f:
+        d = json.load(f)
+    sig = SIG[:3]
+    cases = []
+    for e in d.get(variant, []):
+        base = []
+        for i in e["b"]:
+            vec = M.cond_from_index(i, e["nw"])
+            B, A = M.present(vec, sig, rng)
+            base.append({"vec": vec, "B": B, "A": A})
+        qv = M.cond_from_index(e["q"], e["nw"])
+        B, A = M.present(qv, sig, rng)
+        qs = [{"vec": qv, "B": B, "A": A}]
+        seen = {M.render_cond(B, A)}
+        for _ in range(5):
+            c = gen_cond(sig, rng)
+            t = M.render_cond(c["B"], c["A"])
+            if t not in seen:
+                seen.add(t)
+                qs.append(c)
+        cases.append({"sig": sig, "base": base, "qs": qs, "via": "api"})
+    return cases
+
+
+def search_distinguishing(chk: Check, rng, n_cases, nq=30):
+    """Live search (thorough tier): TLC evaluates the as-coded variants against the definitions on seeded 3-atom cases,
+    checks that every algorithm of InfOCFAlgo refines its definition there, and returns the distinguishing inputs."""
+    cases = []
+    while len(cases) < n_cases:
+        nc = rng.choice([3, 4, 4, 5])
+        base = [_rand_vec(8, rng, 0.35, 0.35) for _ in range(nc)]
+        fin, inf = pysem.part(base)
+        if inf or len(fin) < 2 or max(len(l) for l in fin[1:]) < 2:
+            continue
+        cases.append({"b": [M.cond_index(v) for v in base], "qs": [M.cond_index(_rand_vec(8, rng, 0.3, 0.35)) for _ in range(nq)]})
+    os.makedirs(os.path.join(BUILD, "in"), exist_ok=True)
+    cf = os.path.join(BUILD, "in", f"{chk.prop}_algo_cases.json")
+    with open(cf, "w") as f:
+        json.dump(cases, f)
+    cfg = tlc.cfg_text(invariants=["AlgoRefinesDef"], constants={"NW": 8, "MaxB": 2, "FromFile": True, "MaxReport": 5})
+    res = tlc.run("MC_AlgoRefines", cfg, f"{chk.prop}_algo", env={"CASES_FILE": cf}, timeout=3000)
+    if res.violated:
+        machinery_failure(f"MC_AlgoRefines: an algorithm of InfOCFAlgo does not refine its definition\n{res.out[-2000:]}")
+    tlc.require_ok(res, "MC_AlgoRefines")
+    chk.add_tlc("MC_AlgoRefines:3atoms", res, f"{n_cases} seeded 3-atom bases x {nq} queries: Algo = Sem, wrong variants reported")
+    return res.prints
+
+
+def verify_algo(chk: Check, tier):
+    """MC_AlgoRefines on the exhaustive 2-atom universe: as-coded recursions = definitions; wrong variants differ (non-vacuity)."""
+    cfg = tlc.cfg_text(invariants=["AlgoRefinesDef"], constants={"NW": 4, "MaxB": 1 if tier == "quick" else 2, "FromFile": False, "MaxReport": 5})
+    res = tlc.run("MC_AlgoRefines", cfg, f"{chk.prop}_algo2", timeout=3000)
+    if res.violated:
+        machinery_failure(f"MC_AlgoRefines: an algorithm of InfOCFAlgo does not refine its definition\n{res.out[-2000:]}")
+    tlc.require_ok(res, "MC_AlgoRefines")
+    variants = {p["variant"] for p in res.prints if "variant" in p}
+    chk.add_tlc("MC_AlgoRefines:2atoms", res, f"as-coded recursions of Z/W/lex/PInf equal their definitions; variants differing here: {sorted(variants)}")
+    chk.cov["wrong_variants_detected_by_spec"] = sorted(variants | {"lexAllPairs (3-atom inputs in spec/distinguishing.json)"})
